@@ -461,18 +461,18 @@ func loadChunk(l *Lexer, recordLen uint64) error {
 			return fmt.Errorf("failed to decompress chunk: %w", err)
 		}
 
-		// LZ4 chunks may have some crc data at the end that is not required to
-		// fill a buffer, meaning the ReadFull call above does not consume it.
-		// Therefore we have to do an empty read. If we get any data out of
-		// this, it's an error.
-		if compression == CompressionLZ4 {
-			extraBytes, err := io.ReadAll(l.reader)
-			if err != nil {
-				return fmt.Errorf("failed to read extra bytes: %w", err)
-			}
-			if len(extraBytes) > 0 {
-				return fmt.Errorf("encountered unexpected bytes after chunk: %q", extraBytes)
-			}
+		// The chunk's data must end here. Reading on until the decoder reports its end also
+		// consumes what the codec keeps after the last data byte (an lz4 end mark or checksum,
+		// a zstd checksum or further frame), so that the underlying reader is left at the end
+		// of the chunk record whatever happens next. Anything the decoder still produces is an
+		// error; one byte is enough to tell, however much more there would be.
+		var surplus [1]byte
+		n, err := io.ReadFull(l.reader, surplus[:])
+		if n > 0 {
+			return fmt.Errorf("chunk data continues after the declared %d uncompressed bytes", uncompressedSize)
+		}
+		if !errors.Is(err, io.EOF) {
+			return fmt.Errorf("failed to read to the end of the chunk: %w", err)
 		}
 
 		crc := crc32.ChecksumIEEE(l.uncompressedChunk[:uncompressedSize])
